@@ -2,9 +2,9 @@
 # ./mutcheck.sh <patch.diff> <prop-id>...   apply a seeded change to a scratch worktree of /repo (outside /repo and
 # /verif), run the quick check of each property against it, print the verdict lines, remove the worktree.
 # Evidence and replays of these runs go to a scratch directory, never to /verif/evidence.
+patch="$(readlink -f "$1")"; shift
 cd "$(dirname "$0")"
 export GOFLAGS=-mod=mod GOPROXY=off
-patch="$(readlink -f "$1")"; shift
 [ -x bin/vc ] || ./setup.sh || exit 2
 wt=$(mktemp -d /tmp/mutcheck.XXXXXX)
 rmdir "$wt"
